@@ -75,3 +75,23 @@ Proof. exact (pipeline_tied mp a b). Qed.
 Theorem C02_resampling_rule a b : (get_resampling a b = RDown <-> a <= b) /\ (get_resampling a b = RUp <-> b < a).
 Proof. exact (get_resampling_spec a b). Qed.
 Print Assumptions C02_source_pipeline_flow.
+
+(* ---- composed with the block partition: an exact linear relation is recovered in EVERY block of ANY partition, at every jointly valid pixel of the
+        block's output window where the whole-image fit is defined (gain: source kernel sum <> 0; gain-offset without in-painting: OLS denominator <> 0) *)
+From HV Require Import Kernel.Blockwise Kernel.BlockwiseLinear Kernel.Laws.
+Local Open Scope Z_scope.
+Theorem C02_blockwise_recovers_gain b kh kw bs a c rc na nb thresh cfill i j :
+  1 <= kh /\ kh mod 2 = 1 -> 1 <= kw /\ kw mod 2 = 1 -> 0 < fst bs /\ 0 < snd bs -> 0 <= bH b /\ 0 <= bW b ->
+  (forall u v, jmask b u v = true -> (rv b u v == a * sv b u v + c)%Q) -> (c == 0)%Q ->
+  In rc (proc_blocks2 (whole b) bs (kernel_overlap kh kw)) -> in_win (out_of rc) i j ->
+  jmask b i j = true -> ~ (sX (ksums b kh kw i j) == 0)%Q ->
+  exists p, fit_px Fit.MGain (block_image b rc) kh kw na nb thresh cfill i j = Some p /\ feqv (p_gain p) (Fin a) /\ feqv (p_off p) (Fin 0).
+Proof. intros A B C D E. exact (blockwise_recovers_gain b kh kw A B bs C D a c E rc na nb thresh cfill i j). Qed.
+Theorem C02_blockwise_recovers_gain_offset b kh kw bs a c rc na nb cfill i j :
+  1 <= kh /\ kh mod 2 = 1 -> 1 <= kw /\ kw mod 2 = 1 -> 0 < fst bs /\ 0 < snd bs -> 0 <= bH b /\ 0 <= bW b ->
+  (forall u v, jmask b u v = true -> (rv b u v == a * sv b u v + c)%Q) ->
+  In rc (proc_blocks2 (whole b) bs (kernel_overlap kh kw)) -> in_win (out_of rc) i j ->
+  jmask b i j = true -> ~ (go_den (ksums b kh kw i j) == 0)%Q -> ~ (sN (ksums b kh kw i j) == 0)%Q ->
+  exists p, fit_px Fit.MGainOffset (block_image b rc) kh kw na nb None cfill i j = Some p /\ feqv (p_gain p) (Fin a) /\ feqv (p_off p) (Fin c).
+Proof. intros A B C D E. exact (blockwise_recovers_gain_offset b kh kw A B bs C D a c E rc na nb cfill i j). Qed.
+Print Assumptions C02_blockwise_recovers_gain_offset.
